@@ -57,6 +57,9 @@ type socket struct {
 	pingIntervalTimer atomic.Pointer[utils.Timer]
 
 	flushMu sync.Mutex
+	// bufferMu makes a packet and its send callback enter (sendPacket) and leave (flush)
+	// writeBuffer and packetsFn together
+	bufferMu sync.Mutex
 }
 
 func (s *socket) Protocol() int {
@@ -531,12 +534,14 @@ func (s *socket) sendPacket(
 		// exports packetCreate event
 		s.Emit("packetCreate", packet)
 
+		s.bufferMu.Lock()
 		s.writeBuffer.Push(packet)
 
 		// add send callback to object, if defined
 		if callback != nil {
 			s.packetsFn.Push(callback)
 		}
+		s.bufferMu.Unlock()
 
 		s.flush()
 	}
@@ -548,11 +553,20 @@ func (s *socket) flush() {
 	defer s.flushMu.Unlock()
 
 	if s.ReadyState() != "closed" && s.Transport().Writable() {
-		if wbuf := s.writeBuffer.AllAndClear(); len(wbuf) > 0 {
+		// take the batch and exactly its callbacks: a Send running while the flush listeners
+		// below are called belongs to the next batch, and so does its callback
+		s.bufferMu.Lock()
+		wbuf := s.writeBuffer.AllAndClear()
+		var packetsFn []SendCallback
+		if len(wbuf) > 0 {
+			packetsFn = s.packetsFn.AllAndClear()
+		}
+		s.bufferMu.Unlock()
+		if len(wbuf) > 0 {
 			socket_log.Debug("flushing buffer to transport")
 			s.Emit("flush", wbuf)
 			s.server.Emit("flush", s, wbuf)
-			if packetsFn := s.packetsFn.AllAndClear(); len(packetsFn) > 0 {
+			if len(packetsFn) > 0 {
 				s.sentCallbackFn.Push(packetsFn)
 			} else {
 				s.sentCallbackFn.Push(nil)
